@@ -319,7 +319,7 @@ impl Property for C06 {
         ];
         // also under a small Receive Maximum / Maximum Packet Size: local refusals are part of the
         // statement, and a refusal must never hit an exchange that is already on the wire
-        (vec(ev, 1..tier.pick(40, 120)), id_offset(2), prologue_variant_no_inbound(), rm_small(), max_pkt())
+        (vec(ev, 1..tier.pick(40, 120)), id_offset(6), prologue_variant_no_inbound(), rm_small(), max_pkt())
             .prop_map(|(evs, id_offset, prologue, receive_max, max_packet_size)| Scenario {
                 receive_max,
                 max_packet_size,
